@@ -3,11 +3,13 @@ CONSTANT O = {}
 CONSTANT EpAddr = 35
 CONSTANT BoAddr = 17
 CONSTANT NewEid = 86
+CONSTANT NewEid2 = 87
 CONSTANT Mts <- MtsDef
 CONSTANT Vids <- VidsDef
 CONSTANT Uuid <- UuidDef
 CONSTANT MaxFaults = 2
 CONSTANT MaxTries = 3
+CONSTANT FaultKinds = {"drop", "trunc", "burst", "dup"}
 CONSTANT Bursts <- BurstsDef
 CONSTANT Script <- ScriptAll
 INVARIANT NoBadAccept
